@@ -1,1 +1,467 @@
-Require Import Base.Prelude Base.XVal C06.Model C06.Proofs.
+(* C06/ProofsFill.v — invariant I4 of DESIGN.md §12: with unbounded max_distance (R = M = +inf)
+   a set pan_near entry is never forgotten and spreads along every scan line, so one target
+   anywhere fills every cell; corollary: a single target is found exactly. *)
+Require Import Base.Prelude Base.XVal C06.Model C06.Proofs C06.ProofsSpec.
+
+Lemma fold_left_map {A B C} (f : A -> B -> A) (g : C -> B) l a :
+  fold_left f (map g l) a = fold_left (fun a c => f a (g c)) l a.
+Proof. revert a; induction l as [|c l IH]; intros a; simpl; auto. Qed.
+
+Lemma ele_inf n : ele n EInf = true.
+Proof. destruct n; reflexivity. Qed.
+
+Definition setp (p : Z * Z) : Prop := unset p = false.
+
+Section Fill.
+  Variable key : Z -> Z -> Z.
+  Variable tie_up : Z -> bool.
+  Variables xc yc : list (option Z).
+  Variable values : list xv.
+  Variable img : list (list xv).
+  Let h := lenZ img.
+  Let w := lenZ (nthZ [] img 0).
+  Hypothesis Hx : coords_ok xc w.
+  Hypothesis Hy : coords_ok yc h.
+  Hypothesis Hrect : rect img.
+
+  Notation is_target := (is_target values).
+  Notation dist2 := (dist2 key xc yc).
+  Notation step_pixel := (step_pixel key tie_up EInf EInf xc yc values).
+  Notation process_line := (process_line key tie_up EInf EInf xc yc values).
+  Notation cand := (cand key xc yc).
+  Notation okp := (okp values img).
+  Notation J := (J key EInf xc yc values img w).
+
+  Lemma target_dist p ln pixel : okp p -> setp p -> 0 <= ln < h -> 0 <= pixel < w ->
+    exists d, dist2 (snd p) (fst p) ln pixel = Some d.
+  Proof.
+    intros [Hu|HT] Hs Hl Hp; [unfold setp in Hs; congruence|].
+    destruct (Tgt_inbounds _ _ _ _ HT) as (Hr & Hc). rewrite Hrect in Hc by auto.
+    unfold Model.dist2.
+    destruct (Hx _ Hc) as (x1 & ->). destruct (Hx _ Hp) as (x2 & ->).
+    destruct (Hy _ Hr) as (y1 & ->). destruct (Hy _ Hl) as (y2 & ->). eauto.
+  Qed.
+
+  (* candidate chain state: an unset entry still has the initial bound +inf *)
+  Definition A (pixel : Z) (st : ext * list (Z * Z)) : Prop :=
+    lenZ (snd st) = w /\ Forall okp (snd st) /\
+    (unset (nthZ NONE (snd st) pixel) = true -> fst st = EInf).
+
+  Lemma cand_other ln pixel guard j st c : c <> pixel ->
+    nthZ NONE (snd (cand ln pixel guard j st)) c = nthZ NONE (snd st) c.
+  Proof.
+    intros Hne. destruct st as [nds pn]; unfold Model.cand.
+    destruct (guard && _); simpl; auto.
+    destruct (closer _ nds); simpl; auto. apply nthZ_updZ_other; lia.
+  Qed.
+
+  Lemma cand_A ln pixel guard j st : 0 <= pixel < w -> A pixel st -> A pixel (cand ln pixel guard j st).
+  Proof.
+    intros Hp (Hl & Hf & Hn). destruct st as [nds pn]; unfold Model.cand; simpl in *.
+    destruct (guard && negb (unset (nthZ NONE pn j))) eqn:Eg; [|repeat split; auto].
+    destruct (closer _ nds) as [a|] eqn:Ec; [|repeat split; auto].
+    apply andb_true_iff in Eg as [_ Eu]. apply negb_true_iff in Eu.
+    unfold A; simpl. split; [unfold lenZ in *; rewrite updZ_length; auto|].
+    split; [apply Forall_updZ; auto; apply Forall_nthZ; auto; left; reflexivity|].
+    rewrite nthZ_updZ_same by lia. congruence.
+  Qed.
+
+  Lemma cand_keep ln pixel guard j st : 0 <= pixel < w -> A pixel st ->
+    setp (nthZ NONE (snd st) pixel) -> setp (nthZ NONE (snd (cand ln pixel guard j st)) pixel).
+  Proof.
+    intros Hp (Hl & Hf & Hn) Hs. destruct st as [nds pn]; unfold Model.cand; simpl in *.
+    destruct (guard && negb (unset (nthZ NONE pn j))) eqn:Eg; auto.
+    destruct (closer _ nds) as [a|] eqn:Ec; auto. simpl.
+    apply andb_true_iff in Eg as [_ Eu]. apply negb_true_iff in Eu.
+    rewrite nthZ_updZ_same by lia. exact Eu.
+  Qed.
+
+  Lemma cand_spread ln pixel j st : 0 <= pixel < w -> 0 <= ln < h -> A pixel st ->
+    setp (nthZ NONE (snd st) j) -> setp (nthZ NONE (snd (cand ln pixel true j st)) pixel).
+  Proof.
+    intros Hp Hln (Hl & Hf & Hn) Hs. destruct st as [nds pn]; unfold Model.cand; simpl in *.
+    unfold setp in Hs. rewrite Hs. simpl.
+    assert (Hok : okp (nthZ NONE pn j)) by (apply Forall_nthZ; auto; left; reflexivity).
+    destruct (target_dist _ ln pixel Hok Hs Hln Hp) as (d & Hd). rewrite Hd.
+    destruct (unset (nthZ NONE pn pixel)) eqn:Eu.
+    - rewrite (Hn eq_refl). simpl. rewrite nthZ_updZ_same by lia. exact Hs.
+    - destruct (closer (Some d) nds); simpl; auto. rewrite nthZ_updZ_same by lia. exact Hs.
+  Qed.
+
+  Section Step.
+    Variables (src : list xv) (ln start end_ step : Z) (orow : list (option (Z * Z))).
+    Hypothesis Hsrc : src = nthZ [] img ln.
+    Hypothesis Hln : 0 <= ln < h.
+    Hypothesis Hstep : step = 1 \/ step = -1.
+
+    Lemma step_pan_other s pixel c : c <> pixel ->
+      nthZ NONE (pan (step_pixel src ln start end_ step s pixel)) c = nthZ NONE (pan s) c.
+    Proof.
+      intros Hne. unfold Model.step_pixel. destruct (is_target _); simpl.
+      - apply nthZ_updZ_other; lia.
+      - match goal with |- nthZ NONE (pan (if ?b then _ else _)) c = _ => destruct b end; simpl;
+          rewrite !cand_other by auto;
+          (destruct (negb (unset (nthZ NONE (pan s) pixel))); simpl; auto;
+           destruct (closer _ EInf); simpl; auto; apply nthZ_updZ_other; lia).
+    Qed.
+
+    Lemma step_lp_keep s pixel c : nthZ LUnset (lp s) c <> LUnset ->
+      nthZ LUnset (lp (step_pixel src ln start end_ step s pixel)) c <> LUnset.
+    Proof.
+      intros Hc. destruct (Z.eq_dec c pixel) as [->|Hne].
+      - destruct (Z_lt_ge_dec pixel 0) as [Hneg|Hnn].
+        { unfold nthZ in Hc. destruct (pixel <? 0) eqn:E; [congruence|lia]. }
+        destruct (Z_lt_ge_dec pixel (lenZ (lp s))) as [Hlt|Hge].
+        + unfold Model.step_pixel. destruct (is_target _); simpl.
+          * rewrite nthZ_updZ_same by lia. discriminate.
+          * match goal with |- nthZ LUnset (lp (if ?b then _ else _)) _ <> _ => destruct b end; simpl; auto.
+            rewrite nthZ_updZ_same by lia. discriminate.
+        + rewrite nthZ_out in Hc by lia. congruence.
+      - rewrite step_pixel_lp_other by auto. exact Hc.
+    Qed.
+
+    (* the pixel's own entry after its step *)
+    Lemma step_set s pixel : J ln orow s -> 0 <= pixel < w ->
+      (is_target (nthZ XNaN src pixel) = true \/ setp (nthZ NONE (pan s) pixel) \/
+       (pixel <> start /\ setp (nthZ NONE (pan s) (pixel - step)))) ->
+      setp (nthZ NONE (pan (step_pixel src ln start end_ step s pixel)) pixel).
+    Proof.
+      intros (Hl1 & Hl2 & Hl3 & Hpan & Hnear & _) Hp Hcase.
+      unfold Model.step_pixel.
+      destruct (is_target (nthZ XNaN src pixel)) eqn:Et; simpl.
+      - rewrite !nthZ_updZ_same by lia.
+        unfold setp, unset; simpl. destruct (pixel =? -1) eqn:E; [lia|reflexivity].
+      - destruct Hcase as [Hc|Hcase]; [discriminate|].
+        set (p0 := nthZ NONE (pan s) pixel) in *.
+        set (st1 := if negb (unset p0)
+                    then match closer (dist2 (snd p0) (fst p0) ln pixel) EInf with
+                         | Some a => (EFin a, pan s)
+                         | None => (EInf, updZ (pan s) pixel NONE)
+                         end
+                    else (EInf, pan s)).
+        assert (A1 : A pixel st1 /\ (setp p0 -> setp (nthZ NONE (snd st1) pixel)) /\
+                     (forall c, c <> pixel -> nthZ NONE (snd st1) c = nthZ NONE (pan s) c)).
+        { unfold st1. destruct (unset p0) eqn:Eu; simpl.
+          - split; [repeat split; auto|]. split; [unfold setp; congruence|auto].
+          - assert (Hok : okp p0) by (apply Forall_nthZ; auto; left; reflexivity).
+            destruct (target_dist _ ln pixel Hok Eu Hln Hp) as (d & Hd). rewrite Hd. simpl.
+            split; [|split; auto].
+            unfold A; simpl. split; [auto|]. split; [auto|].
+            intros Hu. change (nthZ NONE (pan s) pixel) with p0 in Hu. congruence. }
+        destruct A1 as (A1 & Hk1 & Ho1).
+        set (st2 := cand ln pixel (negb (pixel =? start)) (pixel - step) st1).
+        assert (A2 : A pixel st2) by (apply cand_A; auto).
+        set (st3 := cand ln pixel (negb (pixel + step =? end_)) (pixel + step) st2).
+        assert (Hset3 : setp (nthZ NONE (snd st3) pixel)).
+        { apply cand_keep; auto. destruct Hcase as [Hs0|(Hns & Hsl)].
+          - apply cand_keep; auto.
+          - unfold st2. replace (negb (pixel =? start)) with true
+              by (symmetry; apply negb_true_iff; lia).
+            apply cand_spread; auto. rewrite Ho1 by lia. exact Hsl. }
+        match goal with |- setp (nthZ NONE (pan (if ?b then _ else _)) _) => destruct b end; simpl; exact Hset3.
+    Qed.
+
+    (* with M = +inf a set pan_near entry always gives the pixel a distance *)
+    Lemma step_lp_set s pixel : J ln orow s -> 0 <= pixel < w ->
+      setp (nthZ NONE (pan (step_pixel src ln start end_ step s pixel)) pixel) ->
+      nthZ LUnset (lp (step_pixel src ln start end_ step s pixel)) pixel <> LUnset.
+    Proof.
+      intros (Hl1 & Hl2 & Hl3 & Hpan & Hnear & _) Hp.
+      unfold Model.step_pixel.
+      destruct (is_target (nthZ XNaN src pixel)) eqn:Et; simpl.
+      - intros _. rewrite !nthZ_updZ_same by lia. discriminate.
+      - match goal with |- context [cand ln pixel ?g3 ?j3 (cand ln pixel ?g2 ?j2 ?st1)] =>
+          set (st3 := cand ln pixel g3 j3 (cand ln pixel g2 j2 st1)) end.
+        clearbody st3.
+        destruct (unset (nthZ NONE (snd st3) pixel)) eqn:Eu; simpl.
+        + unfold setp. congruence.
+        + intros _. rewrite ele_inf. simpl.
+          destruct (nthZ LUnset (lp s) pixel) as [|m] eqn:El.
+          * simpl. rewrite nthZ_updZ_same by lia. discriminate.
+          * destruct (lt_sq tie_up (fst st3) m); simpl.
+            -- rewrite nthZ_updZ_same by lia. discriminate.
+            -- rewrite El. discriminate.
+    Qed.
+  End Step.
+
+  (* ---- one call of _process_proximity_line ---- *)
+  Definition before (fwd : bool) (c0 c : Z) : Prop := if fwd then c0 <= c else c <= c0.
+
+  Lemma line_fill src fwd ln orow s :
+    src = nthZ [] img ln -> 0 <= ln < h -> J ln orow s ->
+    let s' := process_line src fwd ln w s in
+    J ln orow s' /\
+    (forall c c0, 0 <= c < w -> 0 <= c0 < w -> before fwd c0 c ->
+       (setp (nthZ NONE (pan s) c0) \/ is_target (nthZ XNaN src c0) = true) ->
+       setp (nthZ NONE (pan s') c)) /\
+    (forall c, 0 <= c < w -> setp (nthZ NONE (pan s') c) -> nthZ LUnset (lp s') c <> LUnset) /\
+    (forall c, nthZ LUnset (lp s) c <> LUnset -> nthZ LUnset (lp s') c <> LUnset).
+  Proof.
+    intros Hsrc Hln HJ. cbv zeta. unfold Model.process_line.
+    set (start := if fwd then 0 else w - 1).
+    set (end_ := if fwd then w else -1).
+    set (step := if fwd then 1 else -1).
+    assert (Hstep : step = 1 \/ step = -1) by (unfold step; destruct fwd; auto).
+    assert (Hw : 0 <= w) by apply lenZ_nonneg.
+    set (pos := fun k => start + step * k).
+    unfold pixels. rewrite fold_left_map. fold pos.
+    set (f := fun a c => step_pixel src ln start end_ step a (pos c)).
+    set (P := fun k a =>
+      J ln orow a /\
+      (forall j, k <= j < w -> nthZ NONE (pan a) (pos j) = nthZ NONE (pan s) (pos j)) /\
+      (forall j j0, 0 <= j < k -> 0 <= j0 <= j ->
+         (setp (nthZ NONE (pan s) (pos j0)) \/ is_target (nthZ XNaN src (pos j0)) = true) ->
+         setp (nthZ NONE (pan a) (pos j))) /\
+      (forall j, 0 <= j < k -> setp (nthZ NONE (pan a) (pos j)) -> nthZ LUnset (lp a) (pos j) <> LUnset) /\
+      (forall c, nthZ LUnset (lp s) c <> LUnset -> nthZ LUnset (lp a) c <> LUnset)).
+    assert (Hpos : forall j, 0 <= j < w -> 0 <= pos j < w)
+      by (intros j Hj; unfold pos, start, step; destruct fwd; lia).
+    assert (Hinj : forall i j, i <> j -> pos i <> pos j)
+      by (intros i j Hij; unfold pos, step; destruct fwd; lia).
+    assert (HP : P (0 + Z.of_nat (Z.to_nat w)) (fold_left f (ziota 0 (Z.to_nat w)) s)).
+    { apply fold_left_ziota_inv with (P := P).
+      - unfold P. split; [auto|]. split; [auto|]. split; [intros; lia|]. split; [intros; lia|auto].
+      - intros k a Hk (Ja & Hun & Hsp & Hlp & Hkeep). unfold P, f.
+        assert (Hpk : 0 <= pos k < w) by (apply Hpos; lia).
+        split; [apply step_pixel_J; auto|].
+        split; [intros j Hj; rewrite step_pan_other by (apply Hinj; lia); apply Hun; lia|].
+        assert (Hown : forall j0, 0 <= j0 <= k ->
+                  (setp (nthZ NONE (pan s) (pos j0)) \/ is_target (nthZ XNaN src (pos j0)) = true) ->
+                  setp (nthZ NONE (pan (step_pixel src ln start end_ step a (pos k))) (pos k))).
+        { intros j0 Hj0 Hseed. apply step_set with (orow := orow); auto.
+          destruct (Z.eq_dec j0 k) as [->|Hne].
+          - destruct Hseed as [Hs|Ht]; [|left; exact Ht].
+            right; left. rewrite Hun by lia. exact Hs.
+          - right; right. split; [replace start with (pos 0) by (unfold pos; lia); apply Hinj; lia|].
+            replace (pos k - step) with (pos (k - 1)) by (unfold pos; lia).
+            apply (Hsp (k - 1) j0); auto; lia. }
+        split; [|split].
+        + intros j j0 Hj Hj0 Hseed. destruct (Z.eq_dec j k) as [->|Hne].
+          * apply (Hown j0 Hj0 Hseed).
+          * rewrite step_pan_other by (apply Hinj; lia). apply (Hsp j j0); auto; lia.
+        + intros j Hj Hs. destruct (Z.eq_dec j k) as [->|Hne].
+          * apply step_lp_set with (orow := orow); auto.
+          * rewrite step_pan_other in Hs by (apply Hinj; lia).
+            apply step_lp_keep. apply Hlp; auto; lia.
+        + intros c Hc. apply step_lp_keep. apply Hkeep; auto. }
+    replace (0 + Z.of_nat (Z.to_nat w)) with w in HP by lia.
+    destruct HP as (Ja & _ & Hsp & Hlp & Hkeep).
+    split; [exact Ja|]. split; [|split; [|exact Hkeep]].
+    - intros c c0 Hc Hc0 Hb Hseed.
+      set (j := if fwd then c else w - 1 - c). set (j0 := if fwd then c0 else w - 1 - c0).
+      assert (Hcj : pos j = c) by (unfold pos, j, start, step; destruct fwd; lia).
+      assert (Hcj0 : pos j0 = c0) by (unfold pos, j0, start, step; destruct fwd; lia).
+      rewrite <- Hcj. apply (Hsp j j0).
+      + unfold j; destruct fwd; lia.
+      + unfold j, j0, before in *; destruct fwd; lia.
+      + rewrite Hcj0. exact Hseed.
+    - intros c Hc Hs.
+      set (j := if fwd then c else w - 1 - c).
+      assert (Hcj : pos j = c) by (unfold pos, j, start, step; destruct fwd; lia).
+      rewrite <- Hcj in *. apply Hlp; auto. unfold j; destruct fwd; lia.
+  Qed.
+
+  (* ---- the two calls on one row (either order) ---- *)
+
+  Lemma two_calls_fill src d ln orow s0 :
+    src = nthZ [] img ln -> 0 <= ln < h -> lenZ orow = w -> J ln orow s0 ->
+    let s1 := process_line src d ln w s0 in
+    let s2 := process_line src (negb d) ln w (mkL (pan s1) (lp s1) (fill w NONE)) in
+    (forall c, nthZ LUnset (lp s0) c <> LUnset -> nthZ LUnset (lp s2) c <> LUnset) /\
+    ((exists c0, 0 <= c0 < w /\ (setp (nthZ NONE (pan s0) c0) \/ is_target (nthZ XNaN src c0) = true)) ->
+     forall c, 0 <= c < w -> setp (nthZ NONE (pan s2) c) /\ nthZ LUnset (lp s2) c <> LUnset).
+  Proof.
+    intros Hsrc Hln Ho J0. cbv zeta.
+    destruct (line_fill src d ln orow s0 Hsrc Hln J0) as (J1 & Hsp1 & Hlp1 & Hk1).
+    set (s1 := process_line src d ln w s0) in *.
+    destruct (J_flush key tie_up EInf xc yc values img w (lenZ_nonneg _) ln orow s1 Ho J1) as (J1' & _ & Ho1).
+    destruct (line_fill src (negb d) ln _ _ Hsrc Hln J1') as (J2 & Hsp2 & Hlp2 & Hk2).
+    simpl pan in *. simpl lp in *.
+    set (s2 := process_line src (negb d) ln w _) in *.
+    split; [intros c Hc; apply Hk2, Hk1, Hc|].
+    intros (c0 & Hc0 & Hseed) c Hc.
+    assert (Hset : setp (nthZ NONE (pan s2) c)).
+    { assert (H0 : setp (nthZ NONE (pan s1) c0)) by (apply (Hsp1 c0 c0); auto; unfold before; destruct d; lia).
+      destruct (Z_le_gt_dec c0 c) as [Hle|Hgt].
+      - destruct d.
+        + (* first call forward reaches c; second keeps it *)
+          apply (Hsp2 c c); auto; try (unfold before; simpl; lia). left.
+          apply (Hsp1 c c0); auto; try (unfold before; lia).
+        + (* first call backward set c0; second (forward) spreads from c0 *)
+          apply (Hsp2 c c0); auto; try (unfold before; simpl; lia).
+      - destruct d.
+        + apply (Hsp2 c c0); auto; try (unfold before; simpl; lia).
+        + apply (Hsp2 c c); auto; try (unfold before; simpl; lia). left.
+          apply (Hsp1 c c0); auto; try (unfold before; lia). }
+    split; auto.
+  Qed.
+
+  (* ---- the passes ---- *)
+  Variables r0 c0 : Z.
+  Hypothesis HT0 : Tgt values img r0 c0.
+
+  Notation GD := (GD key EInf xc yc values img w h).
+  Notation GU := (GU key EInf xc yc values img w h).
+  Notation down_line := (down_line key tie_up EInf EInf xc yc values).
+  Notation up_line := (up_line key tie_up EInf EInf xc yc values).
+
+  Lemma T0_bounds : 0 <= r0 < h /\ 0 <= c0 < w.
+  Proof. destruct (Tgt_inbounds _ _ _ _ HT0) as (H1 & H2). rewrite Hrect in H2; auto. Qed.
+
+  Definition filled (g : gst) (r : Z) : Prop := forall c, 0 <= c < w -> nthZ LUnset (nthZ [] (gdist g) r) c <> LUnset.
+  Definition panfull (g : gst) : Prop := forall c, 0 <= c < w -> setp (nthZ NONE (gpan g) c).
+
+  Definition FD (k : Z) (g : gst) : Prop :=
+    GD k g /\ (r0 < k -> panfull g /\ forall r, r0 <= r < k -> filled g r).
+
+  Lemma down_line_FD k g : 0 <= k < h -> FD k g -> FD (k + 1) (down_line img w g k).
+  Proof.
+    intros Hk (HG & HF).
+    assert (Hw : 0 <= w) by apply lenZ_nonneg.
+    assert (Hh : 0 <= h) by apply lenZ_nonneg.
+    split; [apply down_line_GD; auto|].
+    intros Hr0.
+    destruct HG as (Hlp & Hpan & Hld & Hlo & Hdone & Htodo).
+    destruct (Htodo k ltac:(lia)) as (Hlrow & Hnone).
+    assert (J0 : J k (nthZ [] (gout g) k) (mkL (gpan g) (fill w LUnset) (fill w NONE))).
+    { unfold Proofs.J; simpl. repeat split; auto.
+      - unfold lenZ; rewrite fill_length; lia.
+      - unfold lenZ; rewrite fill_length; lia.
+      - apply Forall_fill; left; reflexivity.
+      - intros c Hcr. unfold Proofs.Jcell; simpl. rewrite nthZ_fill by lia. auto. }
+    destruct (two_calls_fill (nthZ [] img k) true k _ _ eq_refl Hk Hlrow J0) as (_ & Hfill).
+    simpl negb in Hfill. simpl pan in Hfill.
+    assert (Hseed : exists c1, 0 <= c1 < w /\
+              (setp (nthZ NONE (gpan g) c1) \/ is_target (nthZ XNaN (nthZ [] img k) c1) = true)).
+    { destruct T0_bounds as (Hb1 & Hb2). exists c0. split; auto.
+      destruct (Z.eq_dec k r0) as [->|Hne].
+      - right. exact HT0.
+      - left. apply HF; auto; lia. }
+    specialize (Hfill Hseed).
+    unfold Model.down_line. split.
+    - intros c Hc. simpl. apply Hfill; auto.
+    - intros r Hr c Hc. simpl. destruct (Z.eq_dec r k) as [->|Hne].
+      + rewrite nthZ_updZ_same by lia. apply Hfill; auto.
+      + rewrite nthZ_updZ_other by lia. apply HF; auto; lia.
+  Qed.
+
+  (* bottom-up pass: j lines done, the next line is h-1-j *)
+  Definition FU (j : Z) (g : gst) : Prop :=
+    GU g /\ (forall r, r0 <= r < h -> filled g r) /\
+    (h - 1 - j < r0 -> panfull g /\ forall r, h - 1 - j < r <= r0 -> filled g r).
+
+  Lemma up_line_FU j g : 0 <= j < h -> FU j g -> FU (j + 1) (up_line img w g (h - 1 - j)).
+  Proof.
+    intros Hj (HG & Hlow & HF).
+    assert (Hw : 0 <= w) by apply lenZ_nonneg.
+    assert (Hh : 0 <= h) by apply lenZ_nonneg.
+    set (k := h - 1 - j) in *. assert (Hk : 0 <= k < h) by (unfold k; lia).
+    split; [apply up_line_GU; auto|].
+    destruct HG as (Hlp & Hpan & Hld & Hlo & Hrows).
+    destruct (Hrows k Hk) as (Hldrow & Hlrow & Hcells).
+    assert (J0 : J k (nthZ [] (gout g) k) (mkL (gpan g) (nthZ [] (gdist g) k) (fill w NONE))).
+    { unfold Proofs.J; simpl. repeat split; auto.
+      - unfold lenZ; rewrite fill_length; lia.
+      - apply Forall_fill; left; reflexivity.
+      - intros c Hcr. unfold Proofs.Jcell; simpl. specialize (Hcells c Hcr).
+        destruct (nthZ LUnset (nthZ [] (gdist g) k) c); auto. rewrite nthZ_fill by lia. simpl. exact Hcells. }
+    destruct (two_calls_fill (nthZ [] img k) false k _ _ eq_refl Hk Hlrow J0) as (Hkeep & Hfill).
+    simpl negb in Hfill, Hkeep. simpl pan in Hfill. simpl lp in Hkeep.
+    unfold Model.up_line. split.
+    - intros r Hr c Hc. simpl. destruct (Z.eq_dec r k) as [->|Hne].
+      + rewrite nthZ_updZ_same by lia. apply Hkeep. apply Hlow; auto.
+      + rewrite nthZ_updZ_other by lia. apply Hlow; auto.
+    - intros Hr0.
+      assert (Hseed : exists c1, 0 <= c1 < w /\
+                (setp (nthZ NONE (gpan g) c1) \/ is_target (nthZ XNaN (nthZ [] img k) c1) = true)).
+      { destruct T0_bounds as (Hb1 & Hb2). exists c0. split; auto.
+        destruct (Z.eq_dec k r0) as [->|Hne].
+        - right. exact HT0.
+        - left. apply HF; auto; lia. }
+      specialize (Hfill Hseed). split.
+      + intros c Hc. simpl. apply Hfill; auto.
+      + intros r Hr c Hc. simpl. destruct (Z.eq_dec r k) as [->|Hne].
+        * rewrite nthZ_updZ_same by lia. apply Hfill; auto.
+        * rewrite nthZ_updZ_other by lia. apply HF; auto; lia.
+  Qed.
+End Fill.
+
+Lemma ziota_snoc s n : ziota s (S n) = ziota s n ++ [s + Z.of_nat n].
+Proof.
+  revert s; induction n as [|n IH]; intros s.
+  - cbn [ziota app]. f_equal. lia.
+  - change (ziota s (S (S n))) with (s :: ziota (s + 1) (S n)). rewrite IH.
+    change (ziota s (S n)) with (s :: ziota (s + 1) n). cbn [app]. f_equal. f_equal. f_equal. lia.
+Qed.
+
+Lemma fold_left_rev_ziota_inv {A} (f : A -> Z -> A) (P : Z -> A -> Prop) s n a :
+  P (s + Z.of_nat n) a -> (forall k a, s <= k < s + Z.of_nat n -> P (k + 1) a -> P k (f a k)) ->
+  P s (fold_left f (rev (ziota s n)) a).
+Proof.
+  revert a; induction n as [|n IH]; intros a Ha Hs.
+  - simpl. replace (s + Z.of_nat 0) with s in Ha by lia. exact Ha.
+  - rewrite ziota_snoc, rev_app_distr. simpl.
+    apply IH.
+    + apply Hs; [lia|]. replace (s + Z.of_nat n + 1) with (s + Z.of_nat (S n)) by lia. exact Ha.
+    + intros k b Hk Hb. apply Hs; [lia|exact Hb].
+Qed.
+
+Section FillFinal.
+  Variable key : Z -> Z -> Z.
+  Variable tie_up : Z -> bool.
+  Variables xc yc : list (option Z).
+  Variable values : list xv.
+  Variable img : list (list xv).
+  Let h := lenZ img.
+  Let w := lenZ (nthZ [] img 0).
+  Hypothesis Hx : coords_ok xc w.
+  Hypothesis Hy : coords_ok yc h.
+  Hypothesis Hrect : rect img.
+
+  (* with at least one target and unbounded max_distance no cell stays unset (NaN) *)
+  Theorem fill_final : forall r0 c0, Tgt values img r0 c0 ->
+    forall r c, 0 <= r < h -> 0 <= c < w ->
+    prox_of (process key tie_up EInf EInf xc yc values img) r c <> LUnset.
+  Proof.
+    intros r0 c0 HT0 r c Hr Hc.
+    assert (Hw : 0 <= w) by apply lenZ_nonneg.
+    assert (Hh : 0 <= h) by apply lenZ_nonneg.
+    destruct (T0_bounds values img Hrect r0 c0 HT0) as (Hb1 & Hb2). fold h w in Hb1, Hb2.
+    unfold Model.process. fold h w.
+    set (g0 := mkG (fill w NONE) (fill h (fill w (LVal (EFin 0)))) (fill h (fill w None))).
+    assert (G0 : GD key EInf xc yc values img w h 0 g0).
+    { unfold GD, g0; simpl. unfold lenZ; rewrite !fill_length.
+      split; [lia|]. split; [apply Forall_fill; left; reflexivity|].
+      split; [lia|]. split; [lia|]. split; [intros; lia|].
+      intros r1 Hr1. rewrite nthZ_fill by lia. rewrite fill_length. split; [lia|].
+      intros c1 Hc1. apply nthZ_fill; lia. }
+    set (g1 := fold_left (down_line key tie_up EInf EInf xc yc values img w) (ziota 0 (Z.to_nat h)) g0).
+    assert (F1 : FD key xc yc values img r0 h g1).
+    { replace h with (0 + Z.of_nat (Z.to_nat h)) at 1 by lia. unfold g1.
+      apply fold_left_ziota_inv with (P := FD key xc yc values img r0).
+      - split; [exact G0|]. intros; lia.
+      - intros k a Hk Ha. apply down_line_FD with (c0 := c0); auto; lia. }
+    destruct F1 as (G1 & F1). destruct (F1 ltac:(lia)) as (_ & Hfilled1).
+    destruct G1 as (_ & _ & Hld & Hlo & Hrows & _).
+    set (g1' := mkG (fill w NONE) (gdist g1) (gout g1)).
+    assert (FU0 : FU key xc yc values img r0 0 g1').
+    { split; [|split].
+      - unfold GU, g1'; simpl. unfold lenZ; rewrite fill_length.
+        split; [lia|]. split; [apply Forall_fill; left; reflexivity|]. auto.
+      - intros r1 Hr1. unfold filled, g1'; simpl. apply Hfilled1; lia.
+      - intros; lia. }
+    assert (FUh : FU key xc yc values img r0 (h - 0)
+                    (fold_left (up_line key tie_up EInf EInf xc yc values img w) (rev (ziota 0 (Z.to_nat h))) g1')).
+    { apply fold_left_rev_ziota_inv with (P := fun k g => FU key xc yc values img r0 (h - k) g).
+      - replace (h - (0 + Z.of_nat (Z.to_nat h))) with 0 by lia. exact FU0.
+      - intros k a Hk Ha.
+        replace (h - k) with ((h - (k + 1)) + 1) by lia.
+        replace k with (h - 1 - (h - (k + 1))) at 2 by lia.
+        apply up_line_FU with (c0 := c0); auto; lia. }
+    destruct FUh as (_ & Hhigh & Hlow).
+    unfold prox_of.
+    destruct (Z_le_gt_dec r0 r) as [Hge|Hlt].
+    - apply Hhigh; auto; lia.
+    - destruct (Hlow ltac:(lia)) as (_ & Hl). apply Hl; auto; lia.
+  Qed.
+End FillFinal.
